@@ -7,10 +7,16 @@ import SfntV.Proofs.SubsetOrder
 import SfntV.Proofs.SubsetWritable
 import SfntV.Proofs.OtlGsub
 import SfntV.Proofs.OtlGpos
-import SfntV.Props.C09b
 
 namespace SfntV.Subset
 open SfntV.Otl
+
+/-- The domain predicate of `C09_fmt12` / `C09_fmt12_lib`, restated verbatim from
+`SfntV.C09b.Map32` (Props/C09b.lean is not imported: a Props file of another area; it did not build
+when this was written): a Go map `uint32 → glyph.ID` as the list of its entries sorted by key — keys
+strictly ascending and 32-bit, glyph ids 16-bit. -/
+def Map32 (m : List (Nat × Nat)) : Prop :=
+  m.Pairwise (fun a b => a.1 < b.1) ∧ ∀ k ∈ m, k.1 < 4294967296 ∧ k.2 < 65536
 
 /-! ### sorting by key -/
 
@@ -186,7 +192,8 @@ theorem subEntries_ok {s : St} (h : Inv s) (hne : s.glyphs ≠ []) : ∀ (es : L
   | nil => intro _ _; simp [subEntries]
   | cons e0 rest ih =>
     intro hnd hf
-    have hnd' := List.nodup_cons.1 (by simpa using hnd)
+    have hnd' : e0.1 ∉ rest.map (·.1) ∧ (rest.map (·.1)).Nodup := by
+      rw [List.map_cons] at hnd; exact List.nodup_cons.1 hnd
     have hf1 : ∀ r ∈ entryRules e0.1 e0.2, Fires s r := by
       intro r hr; apply hf; simp only [entriesRules, List.flatMap_cons]
       exact List.mem_append_left _ hr
@@ -296,5 +303,216 @@ theorem subLookups_ok {s : St} (h : Inv s) (hne : s.glyphs ≠ []) : ∀ (ls : L
     rcases List.mem_cons.1 hs with rfl | hs
     · exact subSubtables_ok h hne l (hwf l List.mem_cons_self) hf1 x hx
     · exact ih (fun l' hl' => hwf l' (List.mem_cons_of_mem _ hl')) hf2 subs hs x hx
+
+/-! ### C08: coverage + GSUB 1.2 / 4.1 domains -/
+
+def toLig (l : Lig) : Gsub.Lig := ⟨l.1, l.2⟩
+
+/-- the hypotheses of `C08_st_roundtrip_gsub1_2` / `C08_st_roundtrip_gsub4_1` for a rebuilt subtable
+whose entries are listed in coverage-index order (= by glyph id, `sortedByNewGid`) -/
+def GsubDomC08 : GsubOut → Prop
+  | .multi m =>
+    Cov.Valid ((sortKeys m).map (·.1)) ∧
+    ((sortKeys m).map (·.2)).length = ((sortKeys m).map (·.1)).length ∧
+    ∀ x ∈ (sortKeys m).map (·.2), x < 65536
+  | .ligs es =>
+    Cov.Valid ((sortKeys es).map (·.1)) ∧
+    ((sortKeys es).map fun e => e.2.map toLig).length = ((sortKeys es).map (·.1)).length ∧
+    ∀ st ∈ (sortKeys es).map (fun e => e.2.map toLig), ∀ l ∈ st, Gsub.LigOk l
+
+theorem gsubDom_of_ok {n : Nat} (hn : n ≤ 65536) {x : GsubOut} (h : GsubOutOK n x) :
+    GsubDomC08 x := by
+  cases x with
+  | multi m =>
+    obtain ⟨hnd, hb⟩ := h
+    have hp := sortKeys_perm m
+    refine ⟨⟨?_, ?_⟩, by simp, ?_⟩
+    · rw [List.pairwise_map]; exact sortKeys_strict m hnd
+    · intro g hg
+      obtain ⟨e, he, rfl⟩ := List.mem_map.1 hg
+      exact Nat.lt_of_lt_of_le (hb e (hp.mem_iff.1 he)).1 hn
+    · intro g hg
+      obtain ⟨e, he, rfl⟩ := List.mem_map.1 hg
+      exact Nat.lt_of_lt_of_le (hb e (hp.mem_iff.1 he)).2 hn
+  | ligs es =>
+    obtain ⟨hnd, hb⟩ := h
+    have hp := sortKeys_perm es
+    refine ⟨⟨?_, ?_⟩, by simp, ?_⟩
+    · rw [List.pairwise_map]; exact sortKeys_strict es hnd
+    · intro g hg
+      obtain ⟨e, he, rfl⟩ := List.mem_map.1 hg
+      exact Nat.lt_of_lt_of_le (hb e (hp.mem_iff.1 he)).1 hn
+    · intro st hst l hl
+      obtain ⟨e, he, rfl⟩ := List.mem_map.1 hst
+      obtain ⟨lig, hlig, rfl⟩ := List.mem_map.1 hl
+      have := (hb e (hp.mem_iff.1 he)).2 lig hlig
+      refine ⟨Nat.lt_of_lt_of_le this.1 hn, ?_⟩
+      intro x hx
+      exact Nat.lt_of_lt_of_le (this.2 x hx) hn
+
+/-! ### C08: GPOS 2.1 domain -/
+
+/-- the pair set of a first glyph: (second glyph, adjustment) -/
+def leftSet (ps : Pairs) (l : Nat) : List (Nat × Nat) := (ps.filter fun p => p.1 == l).map (·.2)
+
+/-- the hypotheses of `C08_st_roundtrip_gpos2_1` that concern the table contents: first glyphs
+(the encoder sorts them into the coverage table itself) and second glyphs are 16-bit values, the
+value records (`vr adj`, copied verbatim from the original) are well-typed, and no first glyph has
+65536 or more pairs -/
+def GposDomC08 (vr : Nat → Gpos.VR × Gpos.VR) (ps : Pairs) : Prop :=
+  (∀ p ∈ ps, p.1 < 65536 ∧ p.2.1 < 65536) ∧
+  ∀ l, Gpos.PairSetOk ((leftSet ps l).map fun ra => (ra.1, (vr ra.2).1, (vr ra.2).2)) ∧
+    (leftSet ps l).length < 65536
+
+theorem subPairs_mem {s : St} (h : Inv s) (hne : s.glyphs ≠ []) (ps : Pairs) :
+    ∀ p' ∈ subPairs s.newGid ps, ∃ l r, (l, r, p'.2.2) ∈ ps ∧ s.has l = true ∧ s.has r = true ∧
+      p'.1 = look s l ∧ p'.2.1 = look s r := by
+  intro p' hp'
+  simp only [subPairs, List.mem_filterMap] at hp'
+  obtain ⟨⟨l, r, a⟩, hm, he⟩ := hp'
+  simp only at he
+  cases h1 : s.newGid.lookup l with
+  | none => rw [h1] at he; simp at he
+  | some x =>
+    cases h2 : s.newGid.lookup r with
+    | none => rw [h1, h2] at he; simp at he
+    | some y =>
+      rw [h1, h2] at he
+      simp only [Option.some.injEq] at he
+      subst he
+      exact ⟨l, r, hm, (has_of_lookup h1).1, (has_of_lookup h2).1,
+        (has_of_lookup h1).2.symm, (has_of_lookup h2).2.symm⟩
+
+theorem subPairs_left_length {s : St} (h : Inv s) (l : Gid) (hl : s.has l = true) :
+    ∀ ps : Pairs, ((subPairs s.newGid ps).filter fun p => p.1 == look s l).length ≤
+      (ps.filter fun p => p.1 == l).length := by
+  intro ps
+  induction ps with
+  | nil => simp [subPairs]
+  | cons p rest ih =>
+    have hcons : subPairs s.newGid (p :: rest) =
+        (match s.newGid.lookup p.1, s.newGid.lookup p.2.1 with
+          | some a, some b => [(a, b, p.2.2)]
+          | _, _ => []) ++ subPairs s.newGid rest := by
+      simp only [subPairs, List.filterMap_cons]
+      cases s.newGid.lookup p.1 <;> cases s.newGid.lookup p.2.1 <;> simp
+    rw [hcons, List.filter_append, List.length_append, List.filter_cons]
+    cases h1 : s.newGid.lookup p.1 with
+    | none =>
+      simp only [List.filter_nil, List.length_nil, Nat.zero_add]
+      split
+      · simp only [List.length_cons]; omega
+      · exact ih
+    | some a =>
+      cases h2 : s.newGid.lookup p.2.1 with
+      | none =>
+        simp only [List.filter_nil, List.length_nil, Nat.zero_add]
+        split
+        · simp only [List.length_cons]; omega
+        · exact ih
+      | some b =>
+        have ha := has_of_lookup h1
+        by_cases hpl : p.1 = l
+        · have : (p.1 == l) = true := by simpa using hpl
+          simp only [this, if_true, List.length_cons]
+          have : ((([(a, b, p.2.2)] : Pairs).filter fun q => q.1 == look s l)).length ≤ 1 := by
+            simp only [List.filter_cons, List.filter_nil]; split <;> simp
+          omega
+        · have hb' : (p.1 == l) = false := by simpa using hpl
+          have hne : (a == look s l) = false := by
+            cases hx : (a == look s l)
+            · rfl
+            · exfalso; apply hpl
+              have : a = look s l := by simpa using hx
+              exact look_inj h ha.1 hl (by rw [ha.2, this])
+          simp only [hb', Bool.false_eq_true, if_false, List.filter_cons, hne, List.filter_nil,
+            List.length_nil, Nat.zero_add]
+          exact ih
+
+theorem subPairs_dom {s : St} (h : Inv s) (hne : s.glyphs ≠ []) (hn : s.glyphs.length ≤ 65536)
+    (vr : Nat → Gpos.VR × Gpos.VR) (hvr : ∀ a, Gpos.VROk (vr a).1 ∧ Gpos.VROk (vr a).2)
+    (ps : Pairs) (hps : ∀ l, (leftSet ps l).length < 65536) :
+    GposDomC08 vr (subPairs s.newGid ps) := by
+  have hmem := subPairs_mem h hne ps
+  refine ⟨?_, ?_⟩
+  · intro p hp
+    obtain ⟨l, r, _, _, _, h1, h2⟩ := hmem p hp
+    rw [h1, h2]
+    exact ⟨Nat.lt_of_lt_of_le (look_lt h hne l) hn, Nat.lt_of_lt_of_le (look_lt h hne r) hn⟩
+  · intro nl
+    refine ⟨?_, ?_⟩
+    · intro q hq
+      obtain ⟨ra, hra, rfl⟩ := List.mem_map.1 hq
+      simp only [leftSet] at hra
+      obtain ⟨p, hp, rfl⟩ := List.mem_map.1 hra
+      have hp' := (List.mem_filter.1 hp).1
+      obtain ⟨l, r, _, _, _, _, h2⟩ := hmem p hp'
+      exact ⟨by simp only; rw [h2]; exact Nat.lt_of_lt_of_le (look_lt h hne r) hn,
+        (hvr _).1, (hvr _).2⟩
+    · simp only [leftSet, List.length_map]
+      by_cases hex : ∃ p ∈ subPairs s.newGid ps, p.1 = nl
+      · obtain ⟨p, hp, hpn⟩ := hex
+        obtain ⟨l, r, _, hl, _, h1, _⟩ := hmem p hp
+        have := subPairs_left_length h l hl ps
+        have h3 := hps l
+        simp only [leftSet, List.length_map] at h3
+        rw [← hpn, h1]; omega
+      · have : ((subPairs s.newGid ps).filter fun p => p.1 == nl) = [] := by
+          rw [List.filter_eq_nil_iff]
+          intro p hp hpe
+          exact hex ⟨p, hp, by simpa using hpe⟩
+        rw [this]; simp
+
+/-! ### C09b: cmap subtables -/
+
+theorem subCMap_keys_nodup (m : GMap) : ∀ c : CMap, (c.map (·.1)).Nodup →
+    ((subCMap m c).map (·.1)).Nodup ∧ ∀ e ∈ subCMap m c, e.1 ∈ c.map (·.1) := by
+  intro c
+  induction c with
+  | nil => intro _; simp [subCMap]
+  | cons e rest ih =>
+    intro hnd
+    rw [List.map_cons] at hnd
+    have hnd' := List.nodup_cons.1 hnd
+    have hi := ih hnd'.2
+    have hcons : subCMap m (e :: rest) =
+        (match m.lookup e.2 with | some n => [(e.1, n)] | none => []) ++ subCMap m rest := by
+      simp only [subCMap, List.filterMap_cons]
+      cases m.lookup e.2 <;> simp
+    rw [hcons]
+    cases m.lookup e.2 with
+    | none =>
+      simp only [List.nil_append]
+      exact ⟨hi.1, fun x hx => by rw [List.map_cons]; exact List.mem_cons_of_mem _ (hi.2 x hx)⟩
+    | some n =>
+      simp only [List.cons_append, List.nil_append, List.map_cons, List.nodup_cons]
+      refine ⟨⟨?_, hi.1⟩, ?_⟩
+      · intro hmem
+        obtain ⟨x, hx, hk⟩ := List.mem_map.1 hmem
+        exact hnd'.1 (hk ▸ hi.2 x hx)
+      · intro x hx
+        rcases List.mem_cons.1 hx with rfl | hx
+        · exact List.mem_cons_self
+        · exact List.mem_cons_of_mem _ (hi.2 x hx)
+
+/-- the subset's cmap subtable, as the sorted entry list the encoders work on, is a `Map32` (the
+domain of `C09_fmt12`, `C09_fmt12_lib`); for format 4 the relevant part is: glyph ids 16-bit -/
+theorem subCMap_dom {s : St} (h : Inv s) (hne : s.glyphs ≠ []) (hn : s.glyphs.length ≤ 65536)
+    (c : CMap) (hnd : (c.map (·.1)).Nodup) (hk : ∀ e ∈ c, e.1 < 4294967296) :
+    Map32 (sortKeys (subCMap s.newGid c)) := by
+  have hkn := subCMap_keys_nodup s.newGid c hnd
+  have hp := sortKeys_perm (subCMap s.newGid c)
+  refine ⟨sortKeys_strict _ hkn.1, ?_⟩
+  intro e he
+  have he' := hp.mem_iff.1 he
+  refine ⟨?_, ?_⟩
+  · obtain ⟨e0, he0, hk0⟩ := List.mem_map.1 (hkn.2 e he')
+    rw [← hk0]; exact hk e0 he0
+  · simp only [subCMap, List.mem_filterMap, Option.map_eq_some_iff] at he'
+    obtain ⟨e0, _, n, hl, rfl⟩ := he'
+    have := look_lt h hne e0.2
+    unfold look at this; rw [hl] at this
+    simp only [Option.getD_some] at this
+    omega
 
 end SfntV.Subset
